@@ -22,6 +22,7 @@ import (
 	"sort"
 	"strconv"
 	"strings"
+	"time"
 
 	"github.com/Query-farm/vgi-rpc-go/vgirpc"
 	"github.com/apache/arrow-go/v18/arrow"
@@ -131,6 +132,10 @@ type c21Proxy struct {
 	broken string // set when the harness itself cannot interpret something
 	// passthru: history calls are forwarded untouched, unrecorded and unlabelled
 	passthru bool
+	// opCtx is the caller's context of the client call in progress
+	opCtx *c21Ctx
+	// armed: http.Client.Timeout is set for the call in progress
+	armed bool
 	// schemas a drift fault can aim at: ones this client may have accepted earlier
 	unarySchema *arrow.Schema
 }
@@ -154,6 +159,69 @@ func (e *c21NetErr) Error() string {
 }
 func (e *c21NetErr) Timeout() bool   { return e.timeout }
 func (e *c21NetErr) Temporary() bool { return e.timeout }
+
+// c21Ctx is the caller's context of one client call. It has no wall-clock deadline:
+// the proxy makes it expire (DeadlineExceeded) or cancels it at the exact point of
+// the turn it wants, so "the caller's deadline passed while the response was in
+// flight" is deterministic.
+type c21Ctx struct {
+	done chan struct{}
+	err  error
+}
+
+func newC21Ctx() *c21Ctx                      { return &c21Ctx{done: make(chan struct{})} }
+func (c *c21Ctx) Deadline() (time.Time, bool) { return time.Time{}, false }
+func (c *c21Ctx) Done() <-chan struct{}       { return c.done }
+func (c *c21Ctx) Value(any) any               { return nil }
+func (c *c21Ctx) Err() error {
+	select {
+	case <-c.done:
+		return c.err
+	default:
+		return nil
+	}
+}
+func (c *c21Ctx) fire(err error) {
+	select {
+	case <-c.done:
+	default:
+		c.err = err
+		close(c.done)
+	}
+}
+
+// c21ClientTimeout is the http.Client.Timeout armed for a call whose POST is scheduled
+// to hang (Net fault flavour 4); generous so that the request always reaches the proxy.
+const c21ClientTimeout = 150 * time.Millisecond
+
+// netFail produces the transport failure of a Net fault. Flavour = Var mod k:
+// 0 connection reset, 1 an i/o timeout error value, 2 the CALLER'S context deadline
+// expires while the proxy holds the response, 3 the caller cancels its context
+// mid-turn, 4 http.Client.Timeout fires while the proxy holds the response (the
+// caller's context stays alive). The model sees one class: a transport error.
+func (p *c21Proxy) netFail(req *http.Request, f c21Fault, k int) error {
+	switch f.Var % k {
+	case 1:
+		return &c21NetErr{timeout: true}
+	case 2:
+		if f.Net == 1 { // before forwarding: the caller cancels
+			p.opCtx.fire(context.Canceled)
+			return context.Canceled
+		}
+		p.opCtx.fire(context.DeadlineExceeded)
+		return context.DeadlineExceeded
+	case 3:
+		p.opCtx.fire(context.Canceled)
+		return context.Canceled
+	case 4:
+		if !p.armed { // a later POST of the same call: nothing would ever wake us
+			return &c21NetErr{timeout: true}
+		}
+		<-req.Context().Done() // http.Client.Timeout, armed by c21Run for this call
+		return req.Context().Err()
+	}
+	return &c21NetErr{}
+}
 
 func mdGet(rec arrow.RecordBatch, key string) (string, bool) {
 	if bm, ok := rec.(arrow.RecordBatchWithMetadata); ok {
@@ -326,7 +394,7 @@ func (p *c21Proxy) RoundTrip(req *http.Request) (*http.Response, error) {
 	done := func() { p.cur.Posts = append(p.cur.Posts, post) }
 	if f.Net == 1 {
 		done()
-		return nil, &c21NetErr{timeout: f.Var%2 == 1}
+		return nil, p.netFail(req, f, 3)
 	}
 	// forward
 	sreq := httptest.NewRequest(http.MethodPost, req.URL.Path, bytes.NewReader(reqBody))
@@ -361,7 +429,7 @@ func (p *c21Proxy) RoundTrip(req *http.Request) (*http.Response, error) {
 	}
 	done()
 	if f.Net == 2 {
-		return nil, &c21NetErr{timeout: f.Var%2 == 1}
+		return nil, p.netFail(req, f, 5)
 	}
 	hdr := http.Header{}
 	for k, v := range sres.Header {
@@ -584,11 +652,13 @@ func c21Run(in c21In) CaseOut {
 	}
 	sf.PushStream(script)
 
+	httpc := &http.Client{}
 	px := &c21Proxy{h: hs, faults: in.Faults, labels: map[string]int{}}
+	httpc.Transport = px
 	var recs []c21OpRec
 	begin := func() { recs = append(recs, c21OpRec{Posts: []c21Post{}, Logs: []int{}}); px.cur = &recs[len(recs)-1] }
 	client, err := vgirpc.NewHttpClient("http://c21.invalid",
-		vgirpc.WithClientHTTPClient(&http.Client{Transport: px}),
+		vgirpc.WithClientHTTPClient(httpc),
 		vgirpc.WithClientResponseLimits(c21MaxResp, c21MaxResp),
 		vgirpc.WithClientLogHandler(func(m vgirpc.LogMessage) {
 			id, _ := strconv.Atoi(strings.TrimPrefix(m.Message, "m"))
@@ -668,12 +738,22 @@ func c21Run(in c21In) CaseOut {
 	px.passthru = false
 	runtime.ReadMemStats(&ms)
 	allocMark = ms.TotalAlloc
+	// every client call gets a FRESH caller context; http.Client.Timeout is armed only
+	// for a call whose next POST is scheduled to hang until that timeout
+	opctx := func() context.Context {
+		px.opCtx = newC21Ctx()
+		httpc.Timeout, px.armed = 0, false
+		if px.n < len(px.faults) && px.faults[px.n].Net == 2 && px.faults[px.n].Var%5 == 4 {
+			httpc.Timeout, px.armed = c21ClientTimeout, true
+		}
+		return px.opCtx
+	}
 	begin()
 	var st *vgirpc.HttpClientStream
 	if in.Exchange {
-		st, err = client.OpenExchange(ctx, "exch", params, vgirpc.ClientStreamSchema{Input: inSchemaX, Output: outSchemaV})
+		st, err = client.OpenExchange(opctx(), "exch", params, vgirpc.ClientStreamSchema{Input: inSchemaX, Output: outSchemaV})
 	} else {
-		st, err = client.OpenProducer(ctx, "prod", params, vgirpc.ClientStreamSchema{Output: outSchemaV})
+		st, err = client.OpenProducer(opctx(), "prod", params, vgirpc.ClientStreamSchema{Output: outSchemaV})
 	}
 	px.cur.Res = c21Result(nil, false, err, "nil")
 	allocOK()
@@ -688,14 +768,14 @@ func c21Run(in c21In) CaseOut {
 				} else {
 					b = int64Batch(inSchemaX, []int64{op.X})
 				}
-				cb, e := st.Exchange(ctx, b)
+				cb, e := st.Exchange(opctx(), b)
 				b.Release()
 				px.cur.Res = c21Result(cb, true, e, "nil")
 			case "next":
-				cb, ok, e := st.Next(ctx)
+				cb, ok, e := st.Next(opctx())
 				px.cur.Res = c21Result(cb, ok, e, "end")
 			case "cancel":
-				px.cur.Res = c21Result(nil, false, st.Cancel(ctx), "nil")
+				px.cur.Res = c21Result(nil, false, st.Cancel(opctx()), "nil")
 			case "close":
 				st.Close()
 				px.cur.Res = c21Result(nil, false, nil, "nil")
@@ -725,6 +805,12 @@ func c21Run(in c21In) CaseOut {
 		tags["hist-"+h] = true
 	}
 	for _, f := range in.Faults {
+		switch {
+		case f.Net == 1:
+			tags["net-before-"+[]string{"reset", "timeout-value", "ctx-cancel"}[f.Var%3]] = true
+		case f.Net == 2:
+			tags["net-after-"+[]string{"reset", "timeout-value", "ctx-deadline", "ctx-cancel", "client-timeout"}[f.Var%5]] = true
+		}
 		if f.Body == 7 && f.Net == 0 {
 			switch f.Var % 5 {
 			case 3, 4:
@@ -1141,15 +1227,40 @@ func c21Gen(r *rand.Rand, n int, tier string) []c21In {
 		out = append(out, c21In{Exchange: false, Init: "ok", Limit: 2, Turns: []c21Turn{emit(1), emit(2), emit(3), {Act: "raise", Ty: ty}, emit(5)}, Ops: []c21Op{nx, nx, nx, nx, nx}})
 	}
 	out = append(out, c21In{Exchange: true, Init: "panic", Ops: []c21Op{ex(1)}}, c21In{Exchange: false, Init: "nil", Limit: 1, Ops: []c21Op{nx}})
-	if len(out) > n {
-		// keep a spread of the boundary block when the budget is tiny
-		step := len(out)/n + 1
+	// ambiguous outcomes of an exchange turn k = 1,2,3 AFTER the request was forwarded:
+	// transport error, the caller's context deadline expiring while the proxy holds
+	// the response, the caller cancelling mid-turn, http.Client.Timeout - each followed
+	// by further Exchanges with fresh contexts (must be refused, nothing POSTed), with
+	// and without a client history. These always run, first.
+	var must []c21In
+	for _, hist := range [][]string{nil, {"unary"}} {
+		for k := 1; k <= 3; k++ {
+			for _, flavour := range []int{2, 3, 0, 4, 1} {
+				fs := make([]c21Fault, k+1)
+				fs[k] = c21Fault{Net: 2, Var: flavour}
+				must = append(must, c21In{Hist: hist, Exchange: true, Init: "ok",
+					Turns: []c21Turn{emit(1), emit(10), emit(100), emit(1000), emit(10000)},
+					Ops:   []c21Op{ex(1), ex(2), ex(3), ex(4), {K: "cancel"}, ex(5)}, Faults: fs})
+			}
+		}
+		fs := []c21Fault{{}, {Net: 1, Var: 2}}
+		must = append(must, c21In{Hist: hist, Exchange: true, Init: "ok", Turns: []c21Turn{emit(1), emit(10)}, Ops: []c21Op{ex(1), ex(2), ex(3)}, Faults: fs})
+		// the same on the Cancel POST and on a producer continuation
+		must = append(must, c21In{Hist: hist, Exchange: true, Init: "ok", Turns: []c21Turn{emit(1), emit(10)},
+			Ops: []c21Op{ex(1), {K: "cancel"}, ex(2)}, Faults: []c21Fault{{}, {}, {Net: 2, Var: 2}}})
+		must = append(must, c21In{Hist: hist, Exchange: false, Init: "ok", Limit: 1, Turns: []c21Turn{emit(1), emit(2), emit(3)},
+			Ops: []c21Op{nx, nx, nx, nx}, Faults: []c21Fault{{}, {Net: 2, Var: 2}, {Net: 2, Var: 4}}})
+	}
+	if budget := n - len(must); budget > 0 && len(out) > budget {
+		// keep a spread of the rest of the boundary block when the budget is tiny
+		step := len(out)/budget + 1
 		var o2 []c21In
 		for k := 0; k < len(out); k += step {
 			o2 = append(o2, out[k])
 		}
 		out = o2
 	}
+	out = append(must, out...)
 	for len(out) < n {
 		out = append(out, c21GenCase(r, r.Intn(6) == 0))
 	}
